@@ -40,12 +40,13 @@ type originCase struct {
 	Leader  int // leader of view 1
 }
 
-func originProp(c originCase) common.Result {
+func originProp(c originCase) (verdict common.Result) {
 	cl, err := New(Config{N: c.N, Rules: "chainedhotstuff", Crypto: c.Crypto, Batch: 1, KauriTree: c.Kauri, Leaders: []int{c.Leader}})
 	if err != nil {
 		return common.Fail("harness", "cluster: %v", err)
 	}
 	defer cl.Close()
+	defer func() { verdict = cl.Verdict("C03", verdict) }()
 	cl.Start()
 	cl.topUp()
 	sub := cl.Stacks[c.Subject-1]
